@@ -18,13 +18,21 @@ TECHNIQUE = "runtime monitoring: original-vs-clone twin executed in lock-step ov
 LEVEL_TEXT = (
     "Every clone() call and every subsequent model-building call observed on the original and on its clone is judged: "
     "equality / hash / kind right after cloning, identical acceptance of each operation, equality after each operation, "
-    "and no change of the untouched side; held on the generated problems and histories only."
+    "and no change of the untouched side; in the thorough tier the repository's own test-suite is re-run with a pass-through "
+    "monitor on clone() of the problem and action classes (class, ==, hash for every clone; kind and an independence probe on "
+    "a second clone for the first clones of every test); held on the generated problems and histories and the observed clones only."
 )
 LEVEL_NOTE = (
     "Trusted: CPython, the public constructors / add_* / set_* API used to build and edit both sides, repr() as the "
     "canonical form for the independence check, the library's own == / hash / kind for the equality demands (the "
     "property is stated in terms of them). Differences the library's == does not look at (e.g. epsilon, per-fluent "
-    "defaults without effect on the initial state) are recorded as observations, not judged."
+    "defaults without effect on the initial state) are recorded as observations, not judged. Suite monitor "
+    "(vk/mon/universal.install_clone): trusted are also pytest/xdist and the monkey-patched clone wrappers; only outermost "
+    "clone() calls are judged (the action clones made inside Problem.clone are covered by the problem's ==); the independence "
+    "probe never edits an object the test owns: it takes a SECOND clone, edits that one through the public API (add fluent / "
+    "goal / timed goal / timed effect / invariant / action / object / metric, set initial value, add precondition / effect to the "
+    "clone's actions, rename) and demands unchanged repr() of the original and of the clone handed to the test; at most 600 "
+    "clones per test are judged and 4 problems + 4 actions per test probed; == that raises even on `P == P` is don't-care."
 )
 RULE = (
     "case = one generated problem of one of 5 classes (classical/numeric C01-grammar recipe extended with timed effects incl. "
@@ -34,14 +42,17 @@ RULE = (
     "decrease) / timed goal / trajectory constraint / metric, set initial value, add effect to an existing action, incl. "
     "operations that must be rejected (name clashes, conflicting effects). evaluations = operations judged + clone "
     "judgements. distinct_nontrivial = distinct (class, problem, history) with >= 1 operation rejected on at least one side "
-    "or touching state created before the clone."
+    "or touching state created before the clone. Thorough tier only: one run of unified_planning/test under M-clone; one "
+    "evaluation = one outermost clone() judged (suite:M-clone:judged); witnesses carry the test id (\"suite\": true) and are "
+    "replayed by re-running that test file under the monitor; inconclusive if the suite ran and fewer than 300 clones were "
+    "judged or fewer than 50 independence probes were made."
 )
 ASSUMPTIONS = [
     "equality, hash and kind are the library's own notions (the statement is phrased in them)",
     "repr(problem) is a faithful canonical form for detecting that the untouched side changed",
     "an operation's outcome is 'ok' or the class of the exception it raised; messages are not compared",
 ]
-SHARD_TIMEOUT = {"quick": 900, "thorough": 5400}
+SHARD_TIMEOUT = {"quick": 900, "thorough": 7200}
 N = {"quick": 320, "thorough": 6000}
 CLASSES = ["Problem", "ContingentProblem", "HierarchicalProblem", "MultiAgentProblem", "SchedulingProblem"]
 TIMINGS = [["gstart", "2"], ["gstart", "5"], ["gstart", "7/2"]]
@@ -52,12 +63,26 @@ def plan(tier, seed):
     return simple_plan(PROPERTY, tier, seed, N["quick"], N["thorough"], shards_quick=16)
 
 
+SUITE = (("clone",), "M-clone:judged")
+
+
 def run_shard(spec, res):
+    if spec["tier"] == "thorough" and spec["shard"] == 1:
+        # the repository's own test-suite re-run with the universal monitor M-clone installed (DESIGN §4): every clone() of a
+        # problem / action made by the tests and by the compilers they drive is judged
+        from vk.mon import suite as _suite
+
+        _suite.feed(res, PROPERTY, _suite.run_suite(SUITE[0]), SUITE[1])
     for key in spec["cases"]:
         run_case(key, spec["tier"], res)
 
 
 def replay(witness, res):
+    if witness.get("suite"):
+        from vk.mon import suite as _suite
+
+        _suite.replay_suite(res, PROPERTY, SUITE[0], SUITE[1], witness)
+        return
     run_case(witness["case_key"], witness.get("tier", "quick"), res)
 
 
@@ -873,4 +898,8 @@ def thresholds(m):
         out.append(f"fewer than 100 operations touching pre-clone state ({pre})")
     if len(m["nontrivial"]) < 50:
         out.append("fewer than 50 distinct non-trivial histories")
+    from vk.mon import suite as _suite
+
+    out.extend(_suite.thresholds(c, SUITE[1], 300))
+    out.extend(_suite.thresholds(c, "M-clone:independence_probes", 50))
     return out
